@@ -25,7 +25,7 @@ CMSigned  == {"-1"}
 EntryCases == {[shape |-> s, leaf |-> l, pos |-> "entry"] : s \in Shapes(1), l \in DOMAIN Leaves}
 InputIR(x) ==
   IF x.pos = "entry"
-  THEN <<SchemaOf("p", <<Obj("p", "P", TypeOf(x.shape, x.leaf)), SObj, S2Obj, EObj, UObj, A1Obj, A2Obj, SgObj, EonObj>>)>>
+  THEN <<SchemaOf("p", <<Obj("p", "P", TypeOf(x.shape, x.leaf)), SObj, S2Obj, EObj, UObj, A1Obj, A2Obj, SgObj, EonObj, ArrObj, AArrObj>>)>>
   ELSE CaseIR(x.shape, x.leaf, x.pos)
 AllCases == {x \in Cases : InSlice(x.shape, x.leaf)} \cup EntryCases
 
